@@ -55,7 +55,12 @@ def c07():
                 if L < 0:
                     continue
                 for ct in ((1, 2) if (thorough or L % 3 == 0) else (1 + (L + ci) % 2,)):
-                    cmds.append(enc_cmd(be, k, m, hd, ct, L, _seed_of(chk, L + ci * 1000), 1))
+                    # every fourth stripe is encoded (and rebuilt) a second time after the legacy switch has been given
+                    # the other meaning inside the same process
+                    other = ""
+                    if (L + ci) % 4 == 0:
+                        other = " -" if leg not in (None, "", "0") else (" 1" if (ci + L) % 8 else " yes")
+                    cmds.append(enc_cmd(be, k, m, hd, ct, L, _seed_of(chk, L + ci * 1000), 1) + other)
             # large inputs: header bytes + data-slice property on the real bytes
             for j, L in enumerate([65536 + ci, (1 << 20) - ci] if (thorough or ci < 4) else [40000 + ci]):
                 cmds.append(enc_cmd(be, k, m, hd, 2 - (j % 2), L, _seed_of(chk, 77 + j), 2))
@@ -65,7 +70,7 @@ def c07():
         sample_files += files
     # the same byte-for-byte comparison on the production configuration (gcc -O2, hooks off), legacy switch on: a
     # sample of the commands (the historical CRC relies on implementation-defined signed shifts)
-    gc = [c_ for c_ in cmds if c_.startswith("enc_bytes") and c_.endswith(" 1")][::7][:60]
+    gc = [c_ for c_ in cmds if c_.startswith("enc_bytes") and c_.split()[9] == "1"][::7][:60]
     vg, fg = _run(chk, gc, "C07-gcc", own, env={"LIBERASURECODE_WRITE_LEGACY_CRC": "1"}, variant="gcc", max_lines=600)
     chk.parts["gcc_O2_encode_events"] = (vg.counts or [0] * 3)[1]
     m1 = tlc("MC_Wire", "MC_Wire", workers=4, timeout=600, tag="C07")
